@@ -280,7 +280,9 @@ CLAIMED["C02"] = {
             "public host interface - under the same oracle. Proved in Lean, for every rounding arithmetic and every filter state: below the step threshold the servo "
             "gives at most one frequency command and never a step (no_step_below_threshold, step_only_at_threshold); steer programs "
             "slewTarget of the estimate (steer_slews_to_target); outside the dead zone the slew target has the sign opposite to the "
-            "estimated offset, for every arithmetic with the IEEE sign rule (steering_opposes_offset).",
+            "estimated offset, for every arithmetic with the IEEE sign rule (steering_opposes_offset); the noise estimator adds a sample "
+            "only for a Sync / Delay pair whose event times differ by less than estimate_threshold in absolute value "
+            "(noise_sample_needs_close_pair_sync / _delay).",
     "note": "Trusted: Lean kernel; the closed-loop simulators (harness/src/streams/gen_loop.rs, portloop.rs: clock model, path model, event queue); "
             "generators; the calibration of bound and deadline. The convergence verdict is bounded simulation, not proof.",
     "technique": "Lean 4 theorems for the control law's structure + bit-exact differential correspondence of the servo on closed-loop histories + closed-loop simulation oracle (sampling) for convergence",
